@@ -222,10 +222,22 @@ impl Instance {
         v
     }
 
+    /// handle on the method table for use from another thread
+    pub fn methods(&self) -> jsonrpsee::Methods {
+        self.methods.as_ref().expect("instance is closed").clone()
+    }
+
     /// Send a raw JSON-RPC request text.
     pub fn raw(&mut self, request: &str) -> Resp {
         self.calls += 1;
         let methods = self.methods.as_ref().expect("instance is closed");
+        raw_on(methods, request)
+    }
+}
+
+/// dispatch one request on the calling thread's runtime
+pub fn raw_on(methods: &jsonrpsee::Methods, request: &str) -> Resp {
+    {
         let _ = take_last_panic();
         let r = std::panic::catch_unwind(std::panic::AssertUnwindSafe(|| {
             RT.with(|rt| {
@@ -259,7 +271,9 @@ impl Instance {
             }
         }
     }
+}
 
+impl Instance {
     pub fn call(&mut self, method: &str, params: Value) -> Resp {
         let req = json!({"jsonrpc": "2.0", "id": 1, "method": method, "params": params});
         self.raw(&req.to_string())
